@@ -66,6 +66,30 @@ class _Timeout(BaseException):
 MAKO_CPU_LIMIT_S = 20.0
 
 
+class cpu_guard:
+    """raise _Timeout (repeatedly) in this thread once the CPU budget is used up"""
+
+    def __init__(self, limit=None):
+        self.limit = limit or MAKO_CPU_LIMIT_S
+
+    def __enter__(self):
+        import signal
+
+        def _alarm(signum, frame):
+            raise _Timeout()
+
+        self.old = signal.signal(signal.SIGVTALRM, _alarm)
+        signal.setitimer(signal.ITIMER_VIRTUAL, self.limit, 0.5)
+        return self
+
+    def __exit__(self, *a):
+        import signal
+
+        signal.setitimer(signal.ITIMER_VIRTUAL, 0)
+        signal.signal(signal.SIGVTALRM, self.old)
+        return False
+
+
 def exc_equiv(a, b):
     """exception type names considered the same outcome"""
     fam = [{"NameError", "UnboundLocalError"}, {"RuntimeError", "RuntimeException"}]
